@@ -231,7 +231,10 @@ namespace ratio
         bool_expr xp = new bool_item(*this, get_sat_core().new_disj(lits));
 
         if (xprs.size() > 1) // we create a new var flaw..
+        {
+            lits.push_back(!xp->l); // the disjunction might be used within a larger expression and be false: in such a case there is nothing to choose..
             new_flaw(*new disj_flaw(*this, get_cause(), std::move(lits)));
+        }
 
         return xp;
     }
